@@ -848,3 +848,189 @@ def bool_eval(node, atom):
         return bool_eval(node.args[0], atom)
     raise TranslateError("condition is not built from the expected atoms: %s (line %s)"
                          % (ast.unparse(node)[:80], getattr(node, "lineno", "?")))
+
+
+# =========================================================================== lists as streams over an index
+TID = "__tid__"
+
+
+def substitute(node, sub):
+    """copy of the expression with the loaded names in `sub` replaced (comprehension / lambda scopes respected)"""
+    return _Rename({}, sub).visit(copy.deepcopy(node))
+
+
+class Streams:
+    """`elem(node)`: the expression of element number `__tid__` of a list that has exactly one element per
+    value of `range(<count>)`, in terms of Name(__tid__), or None.  Understood spellings of such a list:
+
+        [f(t) for t in range(count)]  /  list(f(t) for t in range(count))  /  range(0, count)
+        xs = []; for t in range(count): [a = g(t); ...] xs.append(f(t, a))       (no filter, nothing else in the loop)
+        [h(a, b) for a, b in zip(A, B)]          with A, B such lists
+        [h(i, a) for i, a in enumerate(A)]
+        [h(x) for x in A]  /  [h(s, e) for s, e in PAIRS]    where the element of PAIRS is a tuple display
+        a name bound once to one of these
+
+    `single(name)` -> value node | None and `is_count(expr)` come from the caller (its scope rules)."""
+
+    def __init__(self, fn, single, is_count, const0):
+        self.fn, self.single, self.is_count, self.const0 = fn, single, is_count, const0
+        self.par = {}
+        for n in ast.walk(fn):
+            for c in ast.iter_child_nodes(n):
+                self.par[c] = n
+        self.origin = {}     # id(result node) -> defining comprehension / loop
+
+    # -- the three ways to write "one element per iteration"
+    def _view(self, node, depth):
+        """(elt, target, iter, defining node) | None"""
+        if isinstance(node, ast.Name):
+            lv = self._loop_view(node.id)
+            if lv is not None:
+                return lv
+            v = self.single(node.id)
+            return self._view(v, depth + 1) if v is not None and depth < 10 else None
+        if isinstance(node, ast.Call) and isinstance(node.func, ast.Name) and node.func.id in ("list", "tuple") \
+                and len(node.args) == 1 and not node.keywords:
+            inner = node.args[0]
+            if isinstance(inner, ast.GeneratorExp):
+                node = inner
+            else:
+                return self._view(inner, depth + 1) if depth < 10 else None
+        if isinstance(node, (ast.ListComp, ast.GeneratorExp)) and len(node.generators) == 1:
+            g = node.generators[0]
+            if g.ifs or g.is_async:
+                return None
+            return node.elt, g.target, g.iter, node
+        return None
+
+    def _loop_view(self, name):
+        """xs = [] ... for t in it: <single-assignment locals>; xs.append(e)"""
+        init = self.single_any(name)
+        if init is None:
+            return None
+        empty = (isinstance(init, ast.List) and not init.elts) or (
+            isinstance(init, ast.Call) and isinstance(init.func, ast.Name) and init.func.id == "list"
+            and not init.args and not init.keywords)
+        if not empty:
+            return None
+        uses = [n for n in walk_scope(self.fn) if isinstance(n, ast.Call) and isinstance(n.func, ast.Attribute)
+                and isinstance(n.func.value, ast.Name) and n.func.value.id == name
+                and n.func.attr in ("append", "extend", "insert", "remove", "pop", "clear", "sort", "reverse")]
+        if len(uses) != 1 or uses[0].func.attr != "append" or len(uses[0].args) != 1 or uses[0].keywords:
+            return None
+        stmt = self.par.get(uses[0])
+        loop = self.par.get(stmt)
+        if not isinstance(stmt, ast.Expr) or not isinstance(loop, ast.For) or loop.orelse or loop.body[-1] is not stmt:
+            return None
+        sub = {}
+        stored = {}
+        for st in loop.body:
+            for n in ast.walk(st):
+                if isinstance(n, ast.Name) and isinstance(n.ctx, ast.Store):
+                    stored[n.id] = stored.get(n.id, 0) + 1
+        for st in loop.body[:-1]:
+            if isinstance(st, ast.Assign) and len(st.targets) == 1 and isinstance(st.targets[0], ast.Name) \
+                    and stored.get(st.targets[0].id) == 1 and self.count_stores(st.targets[0].id) == 1:
+                sub[st.targets[0].id] = substitute(st.value, sub)
+            elif isinstance(st, ast.Assign) and len(st.targets) == 1 and isinstance(st.targets[0], ast.Tuple) \
+                    and isinstance(st.value, ast.Tuple) and len(st.value.elts) == len(st.targets[0].elts) \
+                    and all(isinstance(t, ast.Name) and stored.get(t.id) == 1 and self.count_stores(t.id) == 1
+                            for t in st.targets[0].elts):
+                vals = [substitute(v, sub) for v in st.value.elts]
+                for t, v in zip(st.targets[0].elts, vals):
+                    sub[t.id] = v
+            elif isinstance(st, ast.Pass) or (isinstance(st, ast.Expr) and isinstance(st.value, ast.Constant)):
+                continue
+            else:
+                return None
+        return substitute(uses[0].args[0], sub), loop.target, loop.iter, loop
+
+    def count_stores(self, name):
+        return sum(1 for n in walk_scope(self.fn) if isinstance(n, ast.Name) and n.id == name
+                   and isinstance(n.ctx, (ast.Store, ast.Del)))
+
+    def single_any(self, name):
+        """value of the one plain assignment of the name (in-place growth allowed)"""
+        vals = [n.value for n in walk_scope(self.fn) if isinstance(n, ast.Assign) and len(n.targets) == 1
+                and isinstance(n.targets[0], ast.Name) and n.targets[0].id == name]
+        return vals[0] if len(vals) == 1 and self.count_stores(name) == 1 else None
+
+    # -- element number __tid__
+    def _range(self, it):
+        """is `it` range(count) / range(0, count)?"""
+        if isinstance(it, ast.Name):
+            v = self.single(it.id)
+            if v is not None:
+                it = v
+        if isinstance(it, ast.Call) and isinstance(it.func, ast.Name) and it.func.id in ("list", "tuple") \
+                and len(it.args) == 1 and not it.keywords:
+            it = it.args[0]
+        if not (isinstance(it, ast.Call) and isinstance(it.func, ast.Name) and it.func.id == "range" and not it.keywords):
+            return False
+        args = list(it.args)
+        if len(args) == 2 and self.const0(args[0]):
+            args = args[1:]
+        return len(args) == 1 and self.is_count(args[0])
+
+    def elem(self, node, depth=0):
+        if depth > 12:
+            return None
+        if self._range(node):
+            return ast.Name(id=TID, ctx=ast.Load())
+        v = self._view(node, 0)
+        if v is None:
+            return None
+        elt, target, it, where = v
+        sub = self._bindings(target, it, depth)
+        if sub is None:
+            return None
+        out = substitute(elt, sub)
+        self.origin[id(out)] = where
+        return out
+
+    def _bindings(self, target, it, depth):
+        if isinstance(it, ast.Name) and self.single(it.id) is not None and not self._range(it) \
+                and self._view(it, 0) is None:
+            it = self.single(it.id)
+        if self._range(it):
+            return {target.id: ast.Name(id=TID, ctx=ast.Load())} if isinstance(target, ast.Name) else None
+        if isinstance(it, ast.Call) and isinstance(it.func, ast.Name) and not it.keywords:
+            if it.func.id == "zip" and isinstance(target, (ast.Tuple, ast.List)) and len(target.elts) == len(it.args) >= 1:
+                sub = {}
+                for t, a in zip(target.elts, it.args):
+                    e = self.elem(a, depth + 1)
+                    if e is None:
+                        return None
+                    s2 = self._destructure(t, e)
+                    if s2 is None:
+                        return None
+                    sub.update(s2)
+                return sub
+            if it.func.id == "enumerate" and len(it.args) == 1 and isinstance(target, (ast.Tuple, ast.List)) \
+                    and len(target.elts) == 2 and isinstance(target.elts[0], ast.Name):
+                e = self.elem(it.args[0], depth + 1)
+                if e is None:
+                    return None
+                sub = self._destructure(target.elts[1], e)
+                if sub is None:
+                    return None
+                sub[target.elts[0].id] = ast.Name(id=TID, ctx=ast.Load())
+                return sub
+        e = self.elem(it, depth + 1)
+        if e is None:
+            return None
+        return self._destructure(target, e)
+
+    def _destructure(self, target, e):
+        if isinstance(target, ast.Name):
+            return {target.id: e}
+        if isinstance(target, (ast.Tuple, ast.List)) and isinstance(e, (ast.Tuple, ast.List)) \
+                and len(e.elts) == len(target.elts) and not any(isinstance(x, ast.Starred) for x in list(e.elts) + list(target.elts)):
+            sub = {}
+            for t, x in zip(target.elts, e.elts):
+                s2 = self._destructure(t, x)
+                if s2 is None:
+                    return None
+                sub.update(s2)
+            return sub
+        return None
